@@ -289,7 +289,9 @@ bool File::put(const ByteArray& data)
 ByteArray File::firstBytes(int n)
 {
 	ByteArray data(n);
-	if (!_file && !open(_path)) {
+	if (_file)
+		seek(0); // already open: the first bytes are at the start, not at the current position
+	else if (!open(_path)) {
 		data.clear();
 		return data;
 	}
